@@ -419,7 +419,7 @@ impl RunState {
     }
 
     fn jsr(&mut self, instr: u16) {
-        *self.reg_mut(7) = self.pc;
+        let return_addr = self.pc;
         if instr & 0x800 == 0 {
             // reg
             let br = (instr >> 6) & 0b111;
@@ -428,6 +428,8 @@ impl RunState {
             // offs
             self.pc = self.pc.wrapping_add(Self::s_ext(instr, 11))
         }
+        // Link register is written last, so that `JSRR R7` jumps to the old value of R7
+        *self.reg_mut(7) = return_addr;
     }
 
     fn ld(&mut self, instr: u16) {
